@@ -24,6 +24,13 @@ def build():
     if os.path.exists(exe):
         return exe
     src = os.path.join(d, 'src')
+    import time
+    for old in glob.glob(os.path.join(vlib.BUILD, 'patcov-*')):       # builds for other trees, unused for three hours
+        try:
+            if old != d and time.time() - os.path.getmtime(old) > 3 * 3600:
+                shutil.rmtree(old, ignore_errors=True)
+        except OSError:
+            pass
     shutil.rmtree(d, ignore_errors=True)
     os.makedirs(src)
     for f in glob.glob(os.path.join(vlib.REPO, '*.[ch]')):
